@@ -118,7 +118,7 @@ fn pick_functions(rng: &mut Rng, focus: &str) -> Vec<&'static FnDesc> {
             "C09" => !d.scope_thread && d.is_result && d.limit.is_none() && d.ttl.is_none() && d.max_memory.is_none(),
             "C07" => !d.scope_thread && d.limit.is_some() && d.ttl.is_none() && d.max_memory.is_none() && matches!(d.policy, "fifo" | "lru"),
             "C08" => !d.scope_thread && d.limit.is_some() && d.ttl.is_none() && d.max_memory.is_none() && matches!(d.policy, "lfu" | "arc" | "tlru"),
-            "C17" => !d.scope_thread && (d.limit.is_some() || d.ttl.is_some() || d.max_memory.is_some()),
+            "C17" | "C16" => !d.scope_thread && (d.limit.is_some() || d.ttl.is_some() || d.max_memory.is_some()),
             "C12" => !d.scope_thread && d.ttl.is_none() && !(d.tags.is_empty() && d.events.is_empty() && d.deps.is_empty()),
             _ => !d.scope_thread,
         })
